@@ -693,6 +693,23 @@ class Pipeline:
     def decompose_grid(self) -> Tuple[ast.AST, ast.AST, ast.AST]:
         """(source grid expr, sliced area expr, rotation orientation expr)"""
         e = self.grid_def
+        # a shortcut that skips the slice when the view is the whole grid:
+        # `(G if A == G.area else G.subgrid(A)) * o` -- the slice decides everything else,
+        # but on the shortcut path the observation grid is built from the state's own rows
+        # (a rotation by FORWARD keeps the row lists), which the masking then overwrites
+        self.state_grid_shortcut = None
+        if isinstance(e, ast.BinOp) and isinstance(e.op, ast.Mult):
+            for side in ('left', 'right'):
+                v = getattr(e, side)
+                if isinstance(v, ast.IfExp):
+                    alts = [v.body, v.orelse]
+                    own = [a for a in alts if src(a) in ('S.grid',)]
+                    sub = [a for a in alts if a not in own]
+                    if len(own) == 1 and len(sub) == 1:
+                        self.state_grid_shortcut = src(v.test)
+                        e = ast.BinOp(sub[0] if side == 'left' else e.left, e.op,
+                                      e.right if side == 'left' else sub[0])
+                        self.grid_def = e
         r = self._decompose(e)
         if r is None:
             # second reading: the expression was moved into a new method (Grid.view, ...)
